@@ -112,8 +112,9 @@ static int one(int strict, int deliv)
 			}
 			mc_violation(sig, "expected %s got %s", sb_str(&d_exp), sb_str(&d_got));
 		}
-		if (end != TL)
-			mc_violation("parse-end-not-at-end-of-text", "parse end %zu, text length %zu", end, TL);
+		/* the end position is C03's business (consistency across chunkings); here only that it is within the input */
+		if (end > TL + 1)
+			mc_violation("parse-end-beyond-input", "parse end %zu, text length %zu (+ NUL)", end, TL);
 		mc_outcome(mc_hash(d_got.p, d_got.n, 0));
 		if (d_got.n > 2)
 			mc_nontrivial(mc_hash(T, TL, 0));
